@@ -464,6 +464,9 @@ pub async fn run(cli: &Cli, report: &mut Report) {
         }
     }
     config_wiring(report).await;
+    if cli.prop == "C15" {
+        crate::c08net::run(cli, report).await;
+    }
 }
 
 pub async fn run_prop(cli: &Cli) -> i32 {
